@@ -196,7 +196,7 @@ def hygiene_scan(props_file=None):
     """No Admitted/admit/Axiom/Parameter/... in the development (with props_file: in that property's
     dependency cone, so an unfinished file that no theorem uses cannot disturb other properties)."""
     bad = []
-    pat = re.compile(r"\b(Admitted|admit|Axiom|Axioms|Parameter|Parameters|Conjecture|Unset Guard|bypass_check|Admit Obligations|type-in-type|impredicative-set)\b")
+    pat = re.compile(r"\b(Admitted|admit|Axiom|Axioms|Parameter|Parameters|Conjecture|Conjectures|Guard Checking|Positivity Checking|Universe Checking|bypass_check|Admit Obligations|type-in-type|impredicative-set)\b")
     only = set(coq_cone(props_file)) if props_file else None
     for root, _, fs in os.walk(COQ):
         for f in fs:
@@ -293,6 +293,8 @@ def coq_str(b):
     """bytes / str / list of ints -> Coq term of type list N."""
     if isinstance(b, str):
         b = b.encode("utf-8")
+    if len(b) == 0:
+        return "(@nil N)"      # typed: a shard holding only empty strings must still elaborate
     return "[" + ";".join(str(x) for x in b) + "]"
 
 
